@@ -266,6 +266,7 @@ pub fn run_batch<E: Engine>(engine: &E, cfg: &BatchCfg) -> BatchReport {
         det_mismatch: Vec<u64>,
         found: Vec<Found<S>>,
         samples: Vec<(u64, S)>,
+        hashes: Vec<(u64, u64)>,
     }
     let agg: Mutex<Agg<E::Sc>> = Mutex::new(Agg {
         evaluations: 0,
@@ -284,7 +285,9 @@ pub fn run_batch<E: Engine>(engine: &E, cfg: &BatchCfg) -> BatchReport {
         det_mismatch: vec![],
         found: vec![],
         samples: vec![],
+        hashes: vec![],
     });
+    let hash_dump = std::env::var("VERIF_HASH_DUMP").ok();
     const CHUNK: u64 = 16;
     std::thread::scope(|scope| {
         for _ in 0..cfg.threads.max(1) {
@@ -329,6 +332,9 @@ pub fn run_batch<E: Engine>(engine: &E, cfg: &BatchCfg) -> BatchReport {
                             *a.probes.entry(k).or_insert(0) += v;
                         }
                         a.fingerprints.insert(out.trace_hash);
+                        if hash_dump.is_some() {
+                            a.hashes.push((run, out.trace_hash));
+                        }
                         if !out.faults.is_empty() && !out.probes.is_empty() {
                             a.nontrivial.insert(out.trace_hash);
                         }
@@ -372,6 +378,12 @@ pub fn run_batch<E: Engine>(engine: &E, cfg: &BatchCfg) -> BatchReport {
     });
     let mut a = agg.into_inner().unwrap();
     let wall_search = t0.elapsed().as_secs_f64();
+    if let Some(path) = &hash_dump {
+        // determinism self-test: one line per run, independent of worker count and process
+        a.hashes.sort();
+        let text: String = a.hashes.iter().map(|(r, h)| format!("{r} {h:016x}\n")).collect();
+        std::fs::write(path, text).unwrap_or_else(|e| harness_error(&format!("cannot write {path}: {e}")));
+    }
 
     if !a.det_mismatch.is_empty() {
         a.det_mismatch.sort();
@@ -393,7 +405,10 @@ pub fn run_batch<E: Engine>(engine: &E, cfg: &BatchCfg) -> BatchReport {
     let mut exit_code = 0;
     let mut known_hit: BTreeSet<String> = BTreeSet::new();
     let mut reported = vec![];
-    let replay_dir = cfg.verif_dir.join("replays");
+    // evidence and replays normally live in the verification directory; experiments (seeded
+    // changes, self-tests) redirect them so that committed evidence is never overwritten
+    let out_dir = std::env::var("VERIF_OUT_DIR").map(PathBuf::from).unwrap_or_else(|_| cfg.verif_dir.clone());
+    let replay_dir = out_dir.join("replays");
     let _ = std::fs::create_dir_all(&replay_dir);
     for (sig, f) in by_sig.iter().take(12) {
         if let Some(k) = known.matches(engine.property(), sig) {
@@ -467,7 +482,7 @@ pub fn run_batch<E: Engine>(engine: &E, cfg: &BatchCfg) -> BatchReport {
         "wall_s": wall,
         "violations": if exit_code == 0 { 0 } else { by_sig.len() as i64 - known_hit.len() as i64 },
     });
-    let evdir = cfg.verif_dir.join("evidence");
+    let evdir = out_dir.join("evidence");
     let _ = std::fs::create_dir_all(&evdir);
     let evpath = evdir.join(format!("{}.json", engine.property()));
     std::fs::write(&evpath, serde_json::to_string_pretty(&ev).unwrap()).unwrap_or_else(|e| harness_error(&format!("cannot write evidence: {e}")));
